@@ -63,6 +63,11 @@ theorem sumN_congr {n : Nat} {f g : Nat → α} (h : ∀ i, i < n → f i = g i)
   rw [sumN_eq_sum, sumN_eq_sum]
   exact Finset.sum_congr rfl fun i hi => h i (Finset.mem_range.mp hi)
 
+/-- congruence for `simp`: inside `sumN n f` the index is known to be `< n` (use `simp +contextual`) -/
+@[congr] theorem sumN_congr' {n m : Nat} {f g : Nat → α} (hnm : n = m) (h : ∀ i, i < m → f i = g i) :
+    sumN n f = sumN m g := by
+  subst hnm; exact sumN_congr h
+
 end sum
 
 /-! ### the pseudo-inverse -/
